@@ -66,5 +66,43 @@ int main ()
     else throw ProtocolError ("type");
     O.put (bad); };
 
+  // scalars passed in another arithmetic type than the element type (the scalar operators are templates, or convert at the
+  // call): with a small integer k given as int, long, short, unsigned, float the result is that of the double k, bit for bit.
+  // Output: number of differing components, per container
+  OP("o.c13.inttypes") { int k = A.integer(); std::vector<double> v; while (!A.done()) v.push_back (hexdouble (A.next())); double dk = k;
+    auto differ = [] (const double* x, const double* y, unsigned n) { int bad = 0; for (unsigned i=0;i<n;i++) if (memcmp (x+i, y+i, 8) != 0) bad++; return bad; };
+    { Vector<3,double> a (v[0], v[1], v[2]); int bad = 0;
+#define VCASE(expr_k, expr_d) { Vector<3,double> x = a, y = a; expr_k; expr_d; bad += differ (&x[0], &y[0], 3); }
+      VCASE(x *= k, y *= dk) VCASE(x /= k, y /= dk) VCASE(x *= (long) k, y *= dk) VCASE(x /= (short) k, y /= dk) VCASE(x *= (float) k, y *= dk)
+      VCASE(x = a * k, y = a * dk) VCASE(x = k * a, y = dk * a) VCASE(x = a / k, y = a / dk)
+      if (k > 0) { VCASE(x *= (unsigned) k, y *= dk) VCASE(x /= (unsigned) k, y /= dk) }
+#undef VCASE
+      O.put (bad); }
+    { Matrix<2,2,double> a; a[0][0] = v[0]; a[0][1] = v[1]; a[1][0] = v[2]; a[1][1] = v[3]; int bad = 0;
+#define MCASE(expr_k, expr_d) { Matrix<2,2,double> x = a, y = a; expr_k; expr_d; bad += differ (&x[0][0], &y[0][0], 2) + differ (&x[1][0], &y[1][0], 2); }
+      MCASE(x *= k, y *= dk) MCASE(x /= k, y /= dk) MCASE(x *= (long) k, y *= dk) MCASE(x /= (float) k, y /= dk)
+      if (k > 0) { MCASE(x *= (unsigned) k, y *= dk) }
+#undef MCASE
+      O.put (bad); }
+    { Stokes<double> a (v[0], v[1], v[2], v[3]); int bad = 0;
+#define SCASE(expr_k, expr_d) { Stokes<double> x = a, y = a; expr_k; expr_d; bad += differ (&x[0], &y[0], 4); }
+      SCASE(x *= k, y *= dk) SCASE(x /= k, y /= dk) SCASE(x *= (short) k, y *= dk)
+#undef SCASE
+      O.put (bad); }
+    { int bad = 0;
+#define QCASE(QB, expr_k, expr_d) { Quaternion<double,QB> a (v[0], v[1], v[2], v[3]); Quaternion<double,QB> x = a, y = a; expr_k; expr_d; \
+        double xx[4] = { x.s0, x.s1, x.s2, x.s3 }, yy[4] = { y.s0, y.s1, y.s2, y.s3 }; bad += differ (xx, yy, 4); }
+      QCASE(Hermitian, x *= k, y *= dk) QCASE(Hermitian, x /= k, y /= dk) QCASE(Unitary, x *= k, y *= dk) QCASE(Unitary, x /= k, y /= dk)
+      // (the binary forms take their result type from PromoteTraits, which has no entry for integral types: float only)
+      QCASE(Hermitian, x = a * (float) k, y = a * dk) QCASE(Unitary, x = a / (float) k, y = a / dk) QCASE(Hermitian, x = (float) k * a, y = dk * a)
+#undef QCASE
+      O.put (bad); }
+    { Estimate<double> a (v[0], std::fabs (v[1])); int bad = 0;
+#define ECASE(expr_k, expr_d) { Estimate<double> x = a, y = a; expr_k; expr_d; double xx[2] = { x.val, x.var }, yy[2] = { y.val, y.var }; bad += differ (xx, yy, 2); }
+      ECASE(x = a * k, y = a * dk) ECASE(x = a / k, y = a / dk) ECASE(x = a + k, y = a + dk) ECASE(x = a - k, y = a - dk)
+      ECASE(x = k * a, y = dk * a) ECASE(x = k + a, y = dk + a) ECASE(x *= k, y *= dk) ECASE(x += k, y += dk) ECASE(x = a * (long) k, y = a * dk)
+#undef ECASE
+      O.put (bad); } };
+
   return run_stream (ops);
 }
